@@ -919,7 +919,8 @@ def run(ctx):
     register_ecdh_1pu()
     only = os.environ.get("C20_ONLY", "").split(",") if os.environ.get("C20_ONLY") else None
     ctx.extra["suite_wall_s"] = {}
-    for nm, f in (("sched-key", sched_key_suite), ("sched-api", sched_api_suite), ("history", history_suite), ("stress", stress_suite)):
+    for nm, f in (("sched-key", sched_key_suite), ("sched-api", sched_api_suite), ("history", history_suite), ("pairs", pairs_suite),
+                  ("stress", stress_suite)):
         if only and nm not in only:
             continue
         t = time.time()
@@ -927,28 +928,95 @@ def run(ctx):
         ctx.extra["suite_wall_s"][nm] = round(time.time() - t, 1)
 
 
+# ------------------------------------------------------------------------------------------------
+# (c') ordered pairs of calls: does call A leave anything behind that changes call B?
+
+WRONG_KEY = {"oct32": "oct32b", "oct32b": "oct32", "oct16": "oct16b", "oct16b": "oct16", "p256": "p256b", "p256b": "p256",
+             "rsa2048": "p256", "ed25519": "p256", "x25519": "p256b", "set": "oct16b"}
+
+
+def pair_catalog(rng):
+    """[(name, spec)]: every producer, and for each producer's token (made on fresh objects) three consumers:
+    valid, wrong key, tampered."""
+    calls = make_calls(rng)
+    iso = World.fresh()
+    cat = []
+    for name in sorted(calls):
+        cat.append((name, ("produce", name)))
+        r = canon(lambda: calls[name](iso))
+        if r[0] != "ok":
+            continue
+        _, kind, token, src = r[1]
+        src = tuple(src)
+        cat.append((f"consume({name})", ("consume", kind, token, src)))
+        cat.append((f"consume({name},wrong-key)", ("consume", kind, token, (WRONG_KEY.get(src[0], "oct16"),) + src[1:])))
+        cat.append((f"consume({name},tampered)", ("consume", kind, tamper_token(kind, token, rng), src)))
+    return cat
+
+
+def run_spec(spec, calls, world):
+    if spec[0] == "produce":
+        return shared_part(spec[1], calls, world, None)
+    return shared_part("consume", calls, world, spec[1:])
+
+
+def verdict_of(spec, got):
+    """What must be equal between a run on shared and on fresh objects."""
+    if spec[0] == "produce":
+        return got[0] if got[0] == "ok" else got
+    return got
+
+
+def pairs_suite(ctx, full=False):
+    cat = pair_catalog(ctx.rng)
+    n = len(cat)
+    if full or ctx.tier == "thorough":
+        pairs = [(i, j) for i in range(n) for j in range(n)]
+    else:
+        def related(a, b):
+            base = lambda nm: nm.replace("consume(", "").split(",")[0].rstrip(")")
+            return base(a) == base(b) or base(a).split(".")[:3] == base(b).split(".")[:3]
+        pairs = [(i, j) for i in range(n) for j in range(n) if related(cat[i][0], cat[j][0])]
+        pairs += [(ctx.rng.randrange(n), ctx.rng.randrange(n)) for _ in range(1500)]
+    chunks = [pairs[k::32] for k in range(32)]
+    parallel(ctx, "pairs_job", [(cat, ch) for ch in chunks if ch])
+
+
+def pairs_job(ctx, job):
+    cat, pairs = job
+    calls = make_calls(ctx.rng)
+    base = {}
+    for i, j in pairs:
+        if j not in base:
+            base[j] = verdict_of(cat[j][1], run_spec(cat[j][1], calls, World.fresh()))
+        world = World.fresh()
+        before = snapshot(world)
+        run_spec(cat[i][1], calls, world)
+        got = verdict_of(cat[j][1], run_spec(cat[j][1], calls, world))
+        leaks = snapshot_diff(before, snapshot(world), world)
+        ctx.count("pairs", (cat[i][0], cat[j][0]), True, "same" if got == base[j] else "DIFFERENT")
+        ctx.disagreements_checked += 1
+        replay = {"suite": "pairs", "first": cat[i][0], "then": cat[j][0], "first_spec": cat[i][1], "then_spec": cat[j][1]}
+        if got != base[j]:
+            ctx.report(f"{cat[j][0]} gives {got!r} after {cat[i][0]} on the same shared objects, but {base[j]!r} on fresh objects",
+                       replay, f"pairs:{cat[i][0]}:{cat[j][0]}")
+        if leaks:
+            frame_broken(ctx, f"{cat[i][0]} then {cat[j][0]}", leaks, replay)
+
+
 def search(ctx):
-    """A theorem, the footprint table or the model correspondence broke: look harder for a failing schedule."""
-    forms = _key_forms()
-    for fname in ("p256-pem", "oct-bytes", "p256-dict"):
-        factory, init, want_kid = forms[fname]
-        facts = KeyFacts(factory, want_kid)
-        for seqs in SEQS:
-            pred = sched.joserfc_pred(None)
-            _, _, solo0 = run_key_schedule(factory, seqs, [(0, None)], pred)
-            _, _, solo1 = run_key_schedule(factory, seqs, [(1, None)], pred)
-            steps = [solo0.steps[0], solo1.steps[1]]
-            for segs in sched.schedules(steps, 2, max(1, (steps[0] + steps[1]) // 60)):
-                key, results, out = run_key_schedule(factory, seqs, segs, pred)
-                abstract = [[classify(op, r, facts) for op, r in zip(ops, rs)] for ops, rs in zip(seqs, results)]
-                final = final_state(key, facts)
-                bad = direct_verdict(seqs, abstract, final)
-                ctx.count("search", (fname, tuple(map(tuple, seqs)), tuple(segs)), True)
-                if bad:
-                    ctx.report(f"shared key under schedule {segs}: {bad}",
-                               {"suite": "sched-key", "key_form": fname, "seqs": seqs, "segments": segs, "trace_files": None},
-                               f"search:{fname}:{bad[:50]}")
-                    return
+    """A theorem, the footprint table or the model correspondence broke: look harder for a failing history or schedule."""
+    pairs_suite(ctx, full=True)
+    if any(v[1] for v in ctx.violations):
+        return
+    saved = ctx.tier
+    ctx.tier = "thorough"
+    try:
+        history_suite(ctx)
+        if not any(v[1] for v in ctx.violations):
+            sched_key_suite(ctx)
+    finally:
+        ctx.tier = saved
 
 
 def replay(ctx, obj):
@@ -972,6 +1040,20 @@ def replay(ctx, obj):
         bad = direct_verdict(obj["seqs"], abstract, final)
         print("verdict:", bad or "property holds on this schedule")
         return 1 if bad else 0
+    if suite == "pairs":
+        calls = make_calls(ctx.rng)
+        first, then = tuple(obj["first_spec"]), tuple(obj["then_spec"])
+        fix = lambda sp: sp if sp[0] == "produce" else (sp[0], sp[1], sp[2], tuple(sp[3]))
+        first, then = fix(first), fix(then)
+        alone = verdict_of(then, run_spec(then, calls, World.fresh()))
+        world = World.fresh()
+        a = run_spec(first, calls, world)
+        after = verdict_of(then, run_spec(then, calls, world))
+        print(f"first : {obj['first']} -> {a[0]}")
+        print(f"then  : {obj['then']} -> {after!r}")
+        print(f"alone : {obj['then']} -> {alone!r}")
+        print("verdict:", "property fails on this history" if alone != after else "property holds on this history")
+        return 1 if alone != after else 0
     if suite == "history":
         calls = make_calls(ctx.rng)
         world = World()
